@@ -11,7 +11,8 @@ from ledgergen import Gen
 
 CLAIM = {
     "technique": "Lean 4 theorems about the raw balance, the range-recomputed balance and the register total of the model (all ledgers, all split points) + differential correspondence on all (start,end) pairs + independent summation oracle + CLI cross-check",
-    "text": ("Proof: txn_balance (every accepted transaction moves every account by exactly the sum of the amounts it posts to it, "
+    "text": ("Proof: C04_raw (after `process` of any accepted entry list the raw balance of every account is, per commodity, the sum of all "
+             "posting amounts to it, with no zero entry), txn_balance (every accepted transaction moves every account by exactly the sum of the amounts it posts to it, "
              "inferred amounts included — hence the whole-history balance is the sum of the register), C04_nozero (no account holds a "
              "zero entry), C04_range (the recomputed balance over [start,end) is, per account and commodity, the sum over the postings "
              "of transactions dated in the range; no zero entries), C04_additive (reports over [s,m) and [m,e) add up to the report "
@@ -22,12 +23,11 @@ CLAIM = {
              "implementation's own transactions; an independent python oracle re-sums the postings (range membership, zero removal, "
              "rounding, additivity, register total); the real binary's `balance --start --end` and `register` are cross-checked."),
     "note": ("modelled, not verified: rust_decimal, rounding is applied by the code only on the range-recomputed path (the raw path is "
-             "unrounded) — both as in the model; the lift of txn_balance from one transaction to `process` over a whole file is by the "
-             "correspondence stream (the per-transaction theorem is proved for every prior balance)."),
+             "unrounded) — both as in the model."),
     "design_ref": "DESIGN.md section 6, C04",
 }
 
-THEOREMS = ["Okane.txn_balance", "Okane.C04_nozero", "Okane.C04_range", "Okane.C04_additive", "Okane.register_total",
+THEOREMS = ["Okane.C04_raw", "Okane.RawOK_processFrom", "Okane.txn_balance", "Okane.C04_nozero", "Okane.C04_range", "Okane.C04_additive", "Okane.register_total",
             "Okane.selSum_split", "Okane.rangeFold", "Okane.acctSum_modify_empty", "Okane.loop_unfilled_empty"]
 
 OKF = ["plain", "omitted", "cost", "lot", "pair", "assign", "assert", "expr", "multi-omitted", "assign-zero", "total-cost"]
@@ -138,7 +138,7 @@ def run(chk):
                 "for the ledger's dates); non-trivial = ledger accepted and at least one transaction in some queried range; distinct = "
                 "distinct (ledger, range list)")
     chk.assumptions = ["rust_decimal is exact on the generated values", "parser outside this check"]
-    if not standard_prologue(chk, THEOREMS):
+    if not standard_prologue(chk, THEOREMS, imports=["Okane.Props.Book"]):
         return
     n = 1200 if chk.tier == "quick" else 20000
     recs = run_stream(chk, n, OKF)
